@@ -82,4 +82,62 @@ def gen_tracker() -> str:
     return ModuleTranslator(REPO, tracker_spec()).run("Gen.Tracker")
 
 
-GENERATORS = {"RunLoop": gen_run_loop, "Tracker": gen_tracker}
+def options_spec() -> ModuleSpec:
+    return ModuleSpec(
+        path="mloda/core/abstract_plugins/components/options.py",
+        cls="Options",
+        functions=[
+            FnSpec("get", {"key": "str"}, ret="pyval", self_type="Options"),
+            FnSpec("set", {"key": "str", "value": "pyval"}, ret="unit", self_type="Options", lean_name="setKey"),
+            FnSpec("__contains__", {"key": "str"}, ret="bool", self_type="Options", lean_name="contains"),
+            FnSpec("items", {}, ret="items", self_type="Options"),
+            FnSpec("keys", {}, ret="strlist", self_type="Options", lean_name="allKeys"),
+        ],
+        self_fields={"group": "dict", "context": "dict"},
+        imports=["MlodaVerif.Model.PyRt", "MlodaVerif.Model.Options"],
+        opens=["PyRt"],
+        prelude=(
+            "/-- `d[k]` -/\n"
+            "def _root_.PyDict.getItem (d : PyDict) (k : String) : Except PyExc PyVal :=\n"
+            "  match d.get? k with\n  | some v => .ok v\n  | none => .error .keyError\n"
+        ),
+    )
+
+
+def gen_options() -> str:
+    return ModuleTranslator(REPO, options_spec()).run("Gen.OptionsAcc")
+
+
+def join_all_spec() -> ModuleSpec:
+    return ModuleSpec(
+        path="mloda/core/runtime/worker_manager.py",
+        cls="WorkerManager",
+        functions=[
+            FnSpec(
+                "join_all",
+                {},
+                lean_name="joinAllLoop",
+                self_type="WMSelf",
+                slicer=lambda fdef: [st for st in fdef.body if not (isinstance(st, __import__("ast").If) or isinstance(st, __import__("ast").Raise))],
+                live_out=["failed"],
+                extra_params=[("isProcess", "Nat → Bool")],
+                doc="everything before the final `if failed: raise`: the flag and the loop over `self.tasks`",
+            ),
+            FnSpec("join_all", {}, lean_name="joinAll", self_type="WMSelf", extra_params=[("isProcess", "Nat → Bool")]),
+        ],
+        self_fields={"tasks": "natlist"},
+        isinstance_map={("task", "multiprocessing.Process"): "isProcess task"},
+        opaque={
+            "task.terminate": Opaque("terminate", may_raise="terminateFails", raise_arg=-1),
+            "task.join": Opaque("join", may_raise="joinFails", raise_arg=-1),
+        },
+        ignore_calls=["logger.error"],
+        prelude="/-- the field of a WorkerManager `join_all` reads: the tasks in creation order -/\nstructure WMSelf where\n  tasks : List Nat\n  deriving Repr\n",
+    )
+
+
+def gen_join_all() -> str:
+    return ModuleTranslator(REPO, join_all_spec()).run("Gen.JoinAll")
+
+
+GENERATORS = {"JoinAll": gen_join_all, "OptionsAcc": gen_options, "RunLoop": gen_run_loop, "Tracker": gen_tracker}
